@@ -177,7 +177,7 @@ static std::string name_class(const std::string &n) {
 
 struct Runner {
     const Cont &c;
-    std::vector<std::string> pool;
+    std::vector<std::string> pool;   // (by value: the length sweep swaps it per step)
     std::string path;
     long traces;
     Runner(const Cont &c_, const std::vector<std::string> &p_, const std::string &path_) : c(c_), pool(p_), path(path_), traces(0) {}
@@ -342,6 +342,52 @@ int main(int argc, char **argv) {
                 rec();
                 if (first == 0 && seedn == 0 && ci < 3) vf::sample(vf::jstr(conts[ci].name + ": " + step_str(pool, alpha[first]) + " ; delete(child[first],by id) ; create(\"a\")"), 6);
             }
+        }
+    }
+    // ---- name-length sweep: names of every length 1..Lmax (paths cross every internal buffer size), sliding window of
+    //      siblings so that the name one shorter / one longer exists when an entity is deleted
+    {
+        const size_t LMAX = thorough ? 600 : 300;
+        for (size_t ci = 0; ci < conts.size(); ci++) {
+            if (conts[ci].link) continue;
+            long cid = caseno++;
+            if (!vf::take_case(cid)) continue;
+            const Cont &c = conts[ci];
+            vf::case_desc(c.name + ": name-length sweep 1.." + std::to_string(LMAX));
+            std::vector<std::string> nopool;
+            Runner R(c, nopool, vf::scratch_file("c03len.h5"));
+            vf::set_clock(1500000000);
+            File f = File::open(R.path, FileMode::Overwrite);
+            c.setup(f, nopool);
+            std::vector<Child> model;
+            auto nm = [](size_t L) { std::string s(L, 'x'); for (size_t i = 0; i < L; i++) s[i] = (char)('a' + (i * 7 + L) % 26); return s; };
+            bool ok = true;
+            for (size_t L = 1; L <= LMAX && ok; L++) {
+                std::string n = nm(L), what;
+                std::string id;
+                std::string exc = vf::guarded([&] { id = c.create(f, n); }, &what);
+                if (!exc.empty()) { vf::distinct("outcomes", c.name + "|create rejected|name of length " + std::to_string(L)); vf::count("rejected_creates"); continue; }   // acceptance of a name is not asserted
+                model.push_back(Child{n, id});
+                std::vector<Step> st = {Step{0, 0, 0}};
+                R.pool = {n};
+                R.check(f, model, st);
+                if (model.size() >= 3) {
+                    // delete the middle one of (L-2, L-1, L): both neighbours in length exist
+                    size_t k = model.size() - 2;
+                    bool r = false;
+                    int mode = (int)(L % 3);
+                    exc = vf::guarded([&] { r = mode == 0 ? c.del(f, model[k].name) : mode == 1 ? c.del(f, model[k].id) : c.del_handle(f, k); }, &what);
+                    vf::count("transitions");
+                    if (!exc.empty() || !r) { vf::violation("C03|" + c.name + "|delete " + MODE[mode] + "|name-length sweep|" + (exc.empty() ? "returned false" : "throws " + exc), c.name + ": deleting the child whose name has " + std::to_string(model[k].name.size()) + " characters: " + what); ok = false; break; }
+                    model.erase(model.begin() + k);
+                    std::vector<Step> sd = {Step{1, 2, mode}};
+                    R.pool = {n};
+                    R.check(f, model, sd);
+                }
+                if (L % 50 == 0) { f.close(); f = File::open(R.path, FileMode::ReadWrite); std::vector<Step> sr = {Step{2, 0, 0}}; R.check(f, model, sr); }
+                vf::count("traces");
+            }
+            f.close();
         }
     }
     vf::note("depth", std::to_string(depth));
